@@ -11,9 +11,14 @@ import random
 
 APPS = ["app", "app2", "äpp", "äpp"]
 SIDES = ["s1", "s2", "s3", "s4", "s5"]
-NAMES = ["1", "2", "3", "7", "10", "100", "007", " 7", "x", "ü", ""]
+NAMES = ["1", "2", "3", "7", "10", "100", "007", " 7", "x", "\u00fc", "u\u0308", "", "\u00b2", "\u0663"]
 MOODS = [None, "happy", "lonely", "scary", "errory", "weird", ""]
-PHASES = ["pake", "version", "0", "1", "", "phäse", "p\x00q"]
+PHASES = ["pake", "version", "0", "1", "", "ph\u00e4se", "pha\u0308se", "p\x00q"]
+# strings that differ only in their Unicode normalisation form are different identifiers and must arrive unmodified
+NFC_NFD = [("\u00e9", "e\u0301"), ("\u00c5", "A\u030a"), ("\u1e69", "s\u0323\u0307")]
+# `client_version` values the protocol document does not allow (it is a pair of strings).  What the server does
+# with such a bind is outside every property's input space (don't-care, counted); what it leaves behind is not.
+BAD_CLIENT_VERSIONS = [None, [], ["only-one"], 5, {}]
 
 
 HOSTILE = ["", "\x00", "a\x00b", "ä", "a\u0308", "\U0001f600", "'", '"', "`", "\\", "%s", "?", "1; DROP TABLE messages;--",
@@ -38,7 +43,7 @@ class Gen(object):
     def __init__(self, seed, napps=2, nsides=3, steps=60, p_illegal=0.08, restarts=True,
                  use_time=True, explicit_sweeps=False, cross_app_mailboxes=False, max_conns=6,
                  names=None, p_third=0.15, body_prefix="b", long_advances=True, list_cmd=True, hostile=False, empty_side=False,
-                 switch_blur=None):
+                 switch_blur=None, bad_client_version=True):
         self.r = random.Random(seed)
         self.seed = seed
         self.apps = APPS[:napps]
@@ -55,6 +60,13 @@ class Gen(object):
             self.sides = hs[:nsides]
             self.r.shuffle(hs)
             self.names = hs[:6] + ["1", "2"]
+        # every fifth history: apps, sides, mailbox ids and bodies that differ only in Unicode normalisation form
+        self.nfmix = (not hostile) and seed % 5 == 4
+        if self.nfmix:
+            if len(self.apps) >= 2:
+                self.apps = ["\u00e4pp", "a\u0308pp"] + self.apps[2:]
+            if len(self.sides) >= 2 and not empty_side:
+                self.sides = ["s\u00e9", "se\u0301"] + self.sides[2:]
         self.steps = steps
         self.p_illegal = p_illegal
         self.restarts = restarts
@@ -67,6 +79,7 @@ class Gen(object):
         self.long_advances = long_advances
         self.list_cmd = list_cmd
         self.switch_blur = switch_blur
+        self.bad_client_version = bad_client_version
         self.conns = {}
         self.nconn = 0
         self.nbody = 0
@@ -80,6 +93,8 @@ class Gen(object):
     def explicit_mb(self, app):
         i = self.apps.index(app)
         base = ["m1", "m2"]
+        if self.nfmix:
+            base = ["m\u00e9", "me\u0301"]
         if self.hostile:
             base = [HOSTILE[(self.seed + 3) % len(HOSTILE)], HOSTILE[(self.seed + 11) % len(HOSTILE)]]
         if self.cross_app:
@@ -88,7 +103,10 @@ class Gen(object):
 
     def body(self):
         self.nbody += 1
-        return "%s%d-%d" % (self.body_prefix, self.seed, self.nbody)
+        tail = ""
+        if self.nfmix and self.nbody % 2:
+            tail = NFC_NFD[self.nbody % len(NFC_NFD)][self.nbody // 2 % 2]
+        return "%s%d-%d%s" % (self.body_prefix, self.seed, self.nbody, tail)
 
     def live(self):
         return [c for c in self.conns.values() if c.alive]
@@ -160,6 +178,13 @@ class Gen(object):
         k = r.random()
         if k < 0.3:
             msg["client_version"] = [r.choice(["python", "rust", ""]), r.choice(["0.12.0", "1.0", "ü"])]
+        elif k < 0.32 and self.bad_client_version:
+            # outside the input space: nothing about the answer is judged, the connection is dropped right away
+            msg["client_version"] = r.choice(BAD_CLIENT_VERSIONS)
+            self.emit("send", c.name, msg)
+            self.emit("drop", c.name)
+            c.alive = False
+            return
         self.emit("send", c.name, self.decorate(msg))
 
     def decorate(self, msg):
